@@ -205,6 +205,8 @@ def _r(t, st):
 
 def _item(t, st):
     """An expression in an argument/list/lambda-body slot: any common_expr."""
+    if t[0] == "named":
+        return _r(t, st)
     s = _r(t, st)
     composite = t[0] in ("bin", "cmp", "bool", "un")
     n = 0
